@@ -1020,7 +1020,7 @@ class AnyBetween(__Class):
         '''
         for c in (start, end):
             if isinstance(c, (str, _pre.Pregex)):
-                if len(str(c).replace("\\", "", 1)) > 1:
+                if (len(c) != 1) if isinstance(c, str) else (c._get_type() != _pre._Type.Token):
                     message = f"Argument \"{c}\" is neither a string nor a token."
                     raise _ex.InvalidArgumentTypeException(message)
             else:
@@ -1068,7 +1068,7 @@ class AnyButBetween(__Class):
         '''
         for c in (start, end):
             if isinstance(c, (str, _pre.Pregex)):
-                if len(str(c).replace("\\", "", 1)) > 1: 
+                if (len(c) != 1) if isinstance(c, str) else (c._get_type() != _pre._Type.Token):
                     message = f"Argument \"{c}\" is neither a string nor a token."
                     raise _ex.InvalidArgumentTypeException(message)
             else:
@@ -1115,7 +1115,7 @@ class AnyFrom(__Class):
             raise _ex.NotEnoughArgumentsException(message)
         for c in chars:
             if isinstance(c, (str, _pre.Pregex)):
-                if len(str(c).replace("\\", "", 1)) > 1: 
+                if (len(c) != 1) if isinstance(c, str) else (c._get_type() != _pre._Type.Token):
                     message = f"Argument \"{c}\" is neither a string nor a token."
                     raise _ex.InvalidArgumentTypeException(message)
             else:
@@ -1158,7 +1158,7 @@ class AnyButFrom(__Class):
             raise _ex.NotEnoughArgumentsException(message)
         for c in chars:
             if isinstance(c, (str, _pre.Pregex)):
-                if len(str(c).replace("\\", "", 1)) > 1: 
+                if (len(c) != 1) if isinstance(c, str) else (c._get_type() != _pre._Type.Token):
                     message = f"Argument \"{c}\" is neither a string nor a token."
                     raise _ex.InvalidArgumentTypeException(message)
             else:
